@@ -280,6 +280,8 @@ SGal3TangentBase<_Derived>::ljac() const {
     ) / (Scalar(2) * theta_sq * theta_sq);
 
     Jl.template block<3, 3>(0, 6).noalias() += A * W + B * WW;
+  } else {
+    Jl.template block<3, 3>(0, 6).noalias() += Scalar(1. / 6.) * W;
   }
 
   // Block E * nu
@@ -442,6 +444,8 @@ void SGal3TangentBase<_Derived>::fillE(
 
   // small angle approx.
   if (theta_sq < Constants<Scalar>::eps) {
+    // first-order term of the series 1/2 I + 1/6 W + 1/24 W^2 + ...
+    E.noalias() += Scalar(1. / 6.) * so3.hat();
     return;
   }
 
